@@ -4,6 +4,7 @@ package main
 // Any "(error" line makes the answer inconclusive.
 
 import (
+	"os"
 	"bufio"
 	"fmt"
 	"io"
@@ -187,6 +188,10 @@ func (s *Solver) Check(asserts []*Term, wantModel bool) (Result, map[string]stri
 	sb.WriteString("(check-sat)\n")
 	s.send(sb.String())
 	ans, err := s.readAnswerTimed()
+	if dir := os.Getenv("VERIF_SLOWDIR"); dir != "" && time.Since(t0) > 5*time.Second {
+		// debugging aid: keep the text of slow queries (definitions sent earlier are not included)
+		os.WriteFile(fmt.Sprintf("%s/slow-%d-%d.smt2", dir, os.Getpid(), s.Stats.Queries), []byte(sb.String()+"; answer: "+ans+"\n"), 0o644)
+	}
 	if err != nil {
 		s.Stats.NUnknown++
 		s.restart()
